@@ -46,6 +46,19 @@ add("C06", "tlc-hexary", "PruneExact (db = Stored(root)) and RcTrue (rc = TrueRc
     "that performs the code's own reference-count bookkeeping; model checked over universes with shared identical "
     "subtrees (counts 2 and 3), no-op updates and batches; each transition replayed and the real db key set, "
     "ref_count and regenerate_ref_count compared")
+add("C03", "tlc-hexary", "ProofComplete, ProofOnPath and ProofSound (every subset of the needed nodes of every current "
+    "and past root, with the rest of the database added: the verifier obtains the true value or refuses, and refuses "
+    "whenever a hashed path node is withheld) are model checked on every reachable trie; for every reachable state the "
+    "real get_proof / get_from_proof are run on the same subsets plus altered, foreign, reordered and duplicated nodes")
+add("C07", "tlc-hexary", "fault enumeration by the model checker: every reachable trie x every subset (up to the bound) of "
+    "its stored node bodies lost x every operation and key, followed by supply-and-retry; FailedCallUnchanged, "
+    "ReportedTruth, RetryConverges, TraverseTruth and GetSameAsComplete are checked on the specification, every "
+    "transition and every per-state traversal table is replayed on the real code with the same node bodies deleted")
+add("C08", "tlc-hexary", "TraverseMatchesCanon compares the transcription of _traverse_from with NodeAt, an independent "
+    "definition from the key set alone, at every prefix / deviating / extended path of every reachable trie; "
+    "TraverseFromAgrees covers every split into prefix and segment, including continuation from simulated nodes; "
+    "for every reachable state the real traverse / traverse_from / root_node are compared field by field and "
+    "database reads are counted per hop")
 
 
 def build():
